@@ -139,7 +139,7 @@ def run(ctx):
                 "ordinates, free and clamped, exact-reproduction cases; seeded: 2-40 knots in [-10,10] with spacing ratio up to 50, random "
                 "real/complex ordinates and end slopes; error cases; non-trivial = >= 3 knots with unequal spacing")
     ctx.assumptions += ["characterisation + uniqueness theorem stands in for an independent dense solve (DESIGN §4 C16)",
-                        "tolerance %s*eps*scale*(hmax/hmin)^2*(1+xmax)^3 (cubics are stored expanded in powers of x)" % KS]
+                        "tolerance eps*scale*max(%s*(hmax/hmin)^2*(1+xmax)^3, 64*(1+xmax/hmin)^3): cubics are stored expanded in powers of x" % KS]
 
 
 def replay(ctx, body):
